@@ -156,7 +156,7 @@ Proof. exact caller_frames_iff. Qed.
 Print Assumptions C02_caller_frames_iff.
 
 (* the private frame of a data object is never changed, whatever the caller does with the frames it holds —
-   exactly when `.df` hands out copies *)
+   exactly when EVERY frame accessor of every data class (.df, .billing_df, any other) builds a new copy at each access *)
 Theorem C02_objects_untouched : forall g, df_copies g -> C02_objects_statement g.
 Proof. exact objects_untouched_l. Qed.
 Print Assumptions C02_objects_untouched.
@@ -166,10 +166,10 @@ Proof. exact objects_iff. Qed.
 Print Assumptions C02_objects_iff.
 
 (* `.df` creates a new location holding the same content; writing into one location changes no other *)
-Theorem C02_handout_is_fresh : forall g s o x c, nth_error (cells s) o = Some x -> own x = Obj c -> df_is_copy (g c) = true ->
-  content (Store.step g s (SDf o)) (length (cells s)) = Some (val x) /\
-  In (length (cells s)) (held (Store.step g s (SDf o))) /\
-  forall l, l < length (cells s) -> content (Store.step g s (SDf o)) l = content s l.
+Theorem C02_handout_is_fresh : forall g s a o x c, nth_error (cells s) o = Some x -> own x = Obj c -> handout_copies (g c) a = true ->
+  content (Store.step g s (SDf a o)) (length (cells s)) = Some (val x) /\
+  In (length (cells s)) (held (Store.step g s (SDf a o))) /\
+  forall l, l < length (cells s) -> content (Store.step g s (SDf a o)) l = content s l.
 Proof. exact df_fresh. Qed.
 Print Assumptions C02_handout_is_fresh.
 
@@ -187,7 +187,7 @@ Print Assumptions C02_fit_predict_write_no_frame.
    a plain attribute; the other six classes copy *)
 Definition caltrack_ascoded (c : dclass) : ccfg :=
   match c with
-  | CaltrackB | CaltrackR => {| init_writes_arg := true; series_writes_arg := false; df_is_copy := false |}
+  | CaltrackB | CaltrackR => {| init_writes_arg := true; series_writes_arg := false; handout_copies := fun _ => false |}
   | _ => safe_ccfg
   end.
 
@@ -201,14 +201,36 @@ Qed.
 Print Assumptions C02_caller_frames_caltrack_refuted.
 
 Theorem C02_objects_caltrack_refuted :
-  content (Store.run caltrack_ascoded (with_object caltrack_ascoded CaltrackR) [SDf 1; SMutate 1 7%Z]) 1 <>
+  content (Store.run caltrack_ascoded (with_object caltrack_ascoded CaltrackR) [SDf ADf 1; SMutate 1 7%Z]) 1 <>
     content (with_object caltrack_ascoded CaltrackR) 1 /\
   ~ C02_objects_statement caltrack_ascoded.
 Proof.
   split; [vm_compute; discriminate|].
-  intros H. apply C02_objects_iff in H. specialize (H CaltrackR). discriminate.
+  intros H. pose proof (proj1 (C02_objects_iff caltrack_ascoded) H CaltrackR ADf) as Q. discriminate Q.
 Qed.
 Print Assumptions C02_objects_caltrack_refuted.
+
+(* a second accessor turned into a cached property (billing_df computed once, the same stored frame handed out at every
+   access; `.df` still copies): the caller's write into what it was handed changes the data object (seeded change C02-4) *)
+Definition billing_df_cached (c : dclass) : ccfg :=
+  match c with
+  | BillingB | BillingR =>
+      {| init_writes_arg := false; series_writes_arg := false;
+         handout_copies := fun a => match a with ABillingDf => false | _ => true end |}
+  | _ => safe_ccfg
+  end.
+
+Theorem C02_objects_cached_accessor_refuted :
+  content (Store.run billing_df_cached (with_object billing_df_cached BillingR) [SDf ABillingDf 1; SMutate 1 7%Z]) 1 <>
+    content (with_object billing_df_cached BillingR) 1 /\
+  content (Store.run billing_df_cached (with_object billing_df_cached BillingR) [SDf ADf 1; SMutate 2 7%Z]) 1 =
+    content (with_object billing_df_cached BillingR) 1 /\
+  ~ C02_objects_statement billing_df_cached.
+Proof.
+  split; [vm_compute; discriminate|]. split; [vm_compute; reflexivity|].
+  intros H. pose proof (proj1 (C02_objects_iff billing_df_cached) H BillingR ABillingDf) as Q. discriminate Q.
+Qed.
+Print Assumptions C02_objects_cached_accessor_refuted.
 
 (* fit(): the model takes over the data object's warning / disqualification lists; the poor-fit disqualification
    appended afterwards reaches the data object exactly when the lists are shared instead of copied
@@ -265,7 +287,7 @@ Example C02_nonvacuous_store :
   (* a caller frame with zero readings -> a daily baseline object (copying class) -> .df -> the caller writes into the
      hand-out and into its own frame: the object's frame stays; with the CalTRACK class the constructor already changed
      the caller's frame *)
-  let ops := [SNew zf; SInit DailyB true 0; SDf 1; SMutate 2 9%Z; SMutate 0 8%Z; SPredict 1] in
+  let ops := [SNew zf; SInit DailyB true 0; SDf ADf 1; SMutate 2 9%Z; SMutate 0 8%Z; SPredict 1] in
   let s := Store.run (fun _ => safe_ccfg) empty ops in
   content s 1 = Some (normalise DailyB true zf) /\ content s 0 = Some (bump zf 8%Z) /\
   content s 2 = Some (bump (normalise DailyB true zf) 9%Z) /\ content s 3 = Some (normalise DailyB true zf) /\
@@ -275,7 +297,7 @@ Proof.
   cbv zeta. split; [vm_compute; reflexivity|]. split; [vm_compute; reflexivity|]. split; [vm_compute; reflexivity|].
   split; [vm_compute; reflexivity|]. split.
   { intros l Hl. vm_compute in Hl. destruct Hl as [<-|[<-|[<-|[]]]]; vm_compute; eauto. }
-  split; [intros c; split; reflexivity|]. split; [intros c; reflexivity|]. vm_compute; reflexivity.
+  split; [intros c; split; reflexivity|]. split; [intros c a; reflexivity|]. vm_compute; reflexivity.
 Qed.
 
 Example C02_nonvacuous_gate :
